@@ -3,6 +3,8 @@
 package state
 
 import (
+	"math/big"
+
 	"github.com/youchainhq/go-youchain/common"
 	"github.com/youchainhq/go-youchain/trie"
 )
@@ -22,6 +24,15 @@ func (st *StateDB) VerifC10Delegations(addr common.Address) ([]common.Address, b
 		out = append(out, a)
 	}
 	return out, true
+}
+
+// VerifC10DelegationBalance returns the delegation balance of a live account (zero when it does not exist).
+func (st *StateDB) VerifC10DelegationBalance(addr common.Address) *big.Int {
+	o := st.getStateObject(addr)
+	if o == nil || o.data.DelegationBalance == nil {
+		return new(big.Int)
+	}
+	return new(big.Int).Set(o.data.DelegationBalance)
 }
 
 // VerifC10Leaf is one leaf of a secure trie: the key preimage when known (else nil), the hashed key, the value.
